@@ -107,6 +107,17 @@ CLAIMS.update({
             'stored rows, positive multiples and fresh queries (n_jobs 1 and 2, fit + partial_fit). Consequences in the '
             'statement (a positive multiple of a stored row collides with it) are checked by the bounded leg only.',
             '12.2, 12.6, 7 C11'),
+    'C16': ('Proved: Simulator._run_train_test_split for an ordered simulation cuts the three columns at train_size = '
+            'int(n * (1 - test_size)), 0 <= train_size <= n, the test rows are the last rows and test_indices lists exactly '
+            'their positions in order; get_stats / get_arm_stats return, per arm, count and sum (min, max) of exactly the '
+            'rewards of the rows whose decision is that arm, zeros when there are none; lemma program c16_totals: train + test '
+            'counts and sums equal the totals (slice-split law proved in Lean). NOT proved (bounded leg only): the random split '
+            '(scikit-learn, A5), one prediction per test row and bandit in test order, the evaluator (observed reward on a match, '
+            'otherwise the training / neighbourhood statistic), evaluated counts summing to the number of test rows and the '
+            'ordering of the min / mean / max analyses - the drivers and the evaluator keep dictionaries of lists keyed by '
+            'data-dependent arms and are outside PyVC\'s reach; the bounded leg recomputes all of it on simulated runs '
+            '(ordered and random split, batch sizes that do and do not divide the test size, arms absent from the training rows).',
+            '12.2, 12.6, 7 C16'),
     'C19': ('Repository side only, as DESIGN 7 C19 says: obligations copy.hooks and attr.universe.static on the AST of '
             'every class of the package (no __getstate__/__reduce__/__deepcopy__/__slots__; no store through self of a '
             'lambda, generator expression, local function, open(), iter(), id()), attr.universe on every explored path of '
@@ -130,10 +141,6 @@ BOUNDED = {
             '{0,1,3,4,10}, is_quick), with several bandits per simulation including neighbourhood bandits with different '
             'metrics, the reported predictions are compared with an identically configured bandit driven through the public '
             'API with the same split and protocol (online protocol for deterministic policies).', '12.2, 12.6'),
-    'C16': ('simulator.py is not under contract. Bounded stand-in: test indices distinct, the last rows when ordered; one '
-            'prediction per test row and bandit; total / train / test statistics equal to recomputation, train + test counts '
-            'and sums give the totals; evaluated counts sum to the number of test rows; min <= mean <= max analyses.',
-            '12.2, 12.6'),
 }
 
 NOT_YET = 'check under construction in this session (contracts for the functions it depends on are not complete yet); not claimed'
